@@ -3,7 +3,9 @@
 spec:   spec/Pipeline.tla (request life cycle, one action per call site; invariants ReqTopDown,
         ResourceMwOnlyIfRouted, ResponderOnlyIfClean, ResponseBottomUp, ResponseOnce,
         SucceededIffNoRaise), spec/MC_Pipeline.tla (bounded instances), spec/PipelineTrace.tla (judge),
-        spec/Lifespan.tla, spec/MC_Lifespan.tla, spec/LifespanTrace.tla
+        spec/Lifespan.tla, spec/MC_Lifespan.tla, spec/LifespanTrace.tla,
+        spec/MC_PipelineSlot.tla (responder slot: method x suffix spelling x class-/method-level hooks; registration
+        history of the middleware stack: AddMiddleware receiving a sequence, also between requests)
 legs:   M  exhaustive TLC check of both designs with per-action coverage + wrong-design switches
         A  TLC-exported behaviours (configuration, what every call site does, expected call sequence)
            replayed on real WSGI and ASGI applications through the raw drivers
@@ -25,7 +27,16 @@ META = {
                   'random deeper stacks are recorded and judged by TLC against the same actions.',
     'level_note': 'Bounds: exhaustive N<=2 components, K<=2 faults, <=1 hook of each kind (quick) / N<=3 (thorough); '
                   'random: 4-6 components, <=3 hooks of each kind, <=5 faults. Lifespan: <=4 components exhaustively, '
-                  '<=8 randomly, 2-3 lifespan cycles on one app object (<=4 randomly) with add_middleware between. Error handlers that themselves raise a non-HTTP exception end the request (modelled, '
+                  '<=8 randomly, 2-3 lifespan cycles on one app object (<=4 randomly) with add_middleware between. '
+                  'Responder slot (spec/MC_PipelineSlot.tla): method (2 quick / 5 thorough) x suffix spelling (none, sfx, item_history, '
+                  'byId, v2, A_b_3; more at random) x class-level hooks cb<=nb, ca<=na with <=2 hooks of each kind, every '
+                  'placement of <=1 fault, both stacks; ClassHooksWrapSlot + wrong design lower_suffix. '
+                  'Stack registration: constructor group + <=2 add_middleware calls of <=2 components, also between two '
+                  'requests of one app, <=3 (4) components; container form (bare, list, tuple, generator, iterator, map, dict view) '
+                  'and cors_enable are rotated by hash, not enumerated by TLC (the specification is independent of them); '
+                  'lifespan add_middleware calls receive sequences (AddMiddlewareSeq, <=2 components), same rotation. '
+                  'A falsy bare component (defining __len__/__bool__) is not covered. '
+                  'Error handlers that themselves raise a non-HTTP exception end the request (modelled, '
                   'outside the promise). WebSocket middleware methods are not covered. Trusted: TLC, CPython C3 '
                   'linearisation, engine/drivers.py.',
 }
@@ -42,15 +53,21 @@ OWN = ('P3', 'P4:handler', 'P4:instance')
 def lifespan_legs(ctx):
     r = ctx.tlc('MC_Lifespan', ctx.pick('MC_LifespanQ.cfg', 'MC_Lifespan.cfg'), coverage=True, workers=4, timeout=600)
     ctx.extra['lifespan_action_coverage'] = H.require_actions(
-        r, ['AddMiddleware', 'Enter', 'RecvStartup', 'XStartupOk', 'XStartupRaise', 'StartupSkip', 'StartupDone', 'Abandon',
+        r, ['AddMiddlewareSeq', 'Enter', 'RecvStartup', 'XStartupOk', 'XStartupRaise', 'StartupSkip', 'StartupDone', 'Abandon',
             'RecvShutdown', 'XShutdownOk', 'XShutdownRaise', 'ShutdownSkip', 'ShutdownDone'])
     # leg A: whole histories of one application object (2-3 cycles, add_middleware in between)
     ra = ctx.tlc('MC_Lifespan', ctx.pick('MC_LifespanA.cfg', 'MC_LifespanA2.cfg'), workers=2, timeout=600, count=False)
     n = 0
-    for b in {digest(b): b for b in ra.json}.values():
+    hists = list({digest(b): b for b in ra.json}.values())
+    ctx.extra['lifespan_histories_exported'] = len(hists)
+    if len(hists) > ctx.pick(1200, 200000):
+        ctx.rng.shuffle(hists)
+        hists = hists[:ctx.pick(1200, 200000)]
+    for b in hists:
         hs0, cycles, plan, exp = H.lifespan_history(b)
-        got = H.run_lifespan(hs0, cycles, plan, with_request_method=len(plan) % 4, add_via_list=bool(len(plan) & 1))
-        case = {'leg': 'A-lifespan', 'hs0': hs0, 'cycles': cycles, 'plan': plan, 'spec': exp}
+        fs = int(digest(b), 16) % (1 << 30)     # container forms of the constructor argument / every add_middleware call, cors_enable
+        got = H.run_lifespan(hs0, cycles, plan, with_request_method=len(plan) % 4, add_via_list=bool(len(plan) & 1), form_seed=fs)
+        case = {'leg': 'A-lifespan', 'hs0': hs0, 'cycles': cycles, 'plan': plan, 'spec': exp, 'form_seed': fs}
         ctx.case(case, nontrivial=len(cycles) >= 2 or 'raise' in plan, key=digest(case))
         n += 1
         for k, ((calls, sent, exc), (ecalls, esent)) in enumerate(zip(got, exp), 1):
@@ -73,9 +90,10 @@ def lifespan_legs(ctx):
                    if k else [], 'shutdown': rng.random() < 0.85} for k in range(rng.randint(1, 4))]
         nraise = rng.choice([0, 0, 1, 2])
         plan = ['raise' if rng.random() < 0.1 and nraise else 'ok' for _ in range(60)]
-        got = H.run_lifespan(hs0, cycles, plan, with_request_method=rng.randrange(256), add_via_list=rng.random() < 0.5)
+        fs = rng.randrange(1 << 30)
+        got = H.run_lifespan(hs0, cycles, plan, with_request_method=rng.randrange(256), add_via_list=rng.random() < 0.5, form_seed=fs)
         t = {'hs0': hs0, 'cycles': [dict(cy, ev=calls, sent=sent) for cy, (calls, sent, _) in zip(cycles, got)]}
-        case = {'leg': 'B-lifespan', 'hs0': hs0, 'cycles': cycles, 'plan': plan}
+        case = {'leg': 'B-lifespan', 'hs0': hs0, 'cycles': cycles, 'plan': plan, 'form_seed': fs}
         ctx.case(case, nontrivial=len(cycles) >= 2 or any(c['act'] == 'raise' for calls, _, _ in got for c in calls), key=digest(t))
         excs = [exc for _, _, exc in got if exc is not None]
         if excs:
@@ -130,6 +148,26 @@ def run(ctx):
         ctx.rng.shuffle(hist)
         hist = hist[:4000]
     H.replay_behaviours(ctx, OWN, hist, both=ctx.quick, seen_other=seen_other, label='leg A (registration histories)')
+    # responder slots (method x suffix spelling x class-/method-level hooks) and registration histories of the stack
+    # (constructor group + add_middleware calls, also between two requests); container forms / cors_enable rotated
+    for cfgname, acts, label, cap in ((ctx.pick('MC_PipelineSlotQ.cfg', 'MC_PipelineSlot.cfg'), ['XSlotStep'], 'responder slots',
+                                       ctx.pick(800, 20000)),
+                                      (ctx.pick('MC_PipelineSlotMwQ.cfg', 'MC_PipelineSlotMw.cfg'),
+                                       ['XSlotStep', 'XSlotNextRequest', 'AddMiddleware'], 'middleware registration', ctx.pick(500, 10000))):
+        rq = ctx.tlc('MC_PipelineSlot', cfgname, env=env, coverage=True, workers=4, timeout=ctx.pick(280, 1500), count=False)
+        ctx.extra['slot_action_coverage:' + label] = H.require_actions(rq, acts)
+        bs = list({digest(b): b for b in rq.json}.values())
+        ctx.extra['spec_behaviours_exported:' + label] = len(bs)
+        ctx.extra['slots_exported:' + label] = len({digest([b['slot'], b['mwh']]) for b in bs})
+        if len(bs) > cap:
+            ctx.rng.shuffle(bs)
+            bs = bs[:cap]
+        H.replay_behaviours(ctx, OWN, bs, both=False, seen_other=seen_other, label='leg A (%s)' % label)
+    rw = ctx.tlc('MC_PipelineSlot', 'MC_PipelineSlotQ.cfg', env=dict(env, WRONG='lower_suffix'), workers=1, timeout=300,
+                 must_hold=False, count=False)
+    if rw.violated != 'ClassHooksWrapSlot':
+        raise H.MachineryError('wrong design lower_suffix: expected ClassHooksWrapSlot to fail, TLC reported %r' % (rw.violated,))
+    ctx.extra.setdefault('wrong_designs_rejected', []).append('lower_suffix')
     rs = ctx.tlc('MC_PipelineS', 'MC_PipelineS_Sim.cfg', env=env, simulate={'num': ctx.pick(60, 1500)}, depth=40,
                  seed=ctx.seed + 1, workers=4, timeout=600, count=False)
     deep = list({digest(b): b for b in rs.json}.values())
@@ -142,7 +180,7 @@ def run(ctx):
     for k in range(ctx.pick(4500, 100000)):
         asgi = bool(k & 1)
         trace, case, runs = H.random_trace(rng, asgi=asgi, ncomp=rng.randint(4, 6), maxhooks=3, regs=H.C3REGS,
-                                           classes=H.ALL_CLASSES, nreqs=1 if k % 8 else 2)
+                                           classes=H.ALL_CLASSES, nreqs=1 if k % 8 else 2, slots=bool(k % 3))
         ctx.case(case, nontrivial=any(H.nontrivial_c03(case['cfg'], rec.calls) for rec, _, _ in runs), key=digest(trace))
         bad = [(rec.wrong, res.errors) for rec, res, _ in runs if rec.wrong or res.errors]
         if bad:
@@ -161,7 +199,7 @@ def run(ctx):
 
 def replay(ctx, case):
     if case.get('leg', '').endswith('lifespan'):
-        got = H.run_lifespan(case['hs0'], case['cycles'], case['plan'])
+        got = H.run_lifespan(case['hs0'], case['cycles'], case['plan'], form_seed=case.get('form_seed'))
         for k, (calls, sent, exc) in enumerate(got, 1):
             print('cycle %d calls: %r\n        sent: %r exc: %r' % (k, calls, sent, exc))
         t = {'hs0': case['hs0'], 'cycles': [dict(cy, ev=calls, sent=sent) for cy, (calls, sent, _) in zip(case['cycles'], got)]}
